@@ -90,6 +90,8 @@ func alphabet() []reqDef {
 		jsonPost("post-A", m("query", qInfo, "operationName", "A"), nil),
 		jsonPost("post-B-vars", m("query", qInfo, "operationName", "B", "variables", m("v", 1)), map[string]string{"X-Verif": "hdr-B"}),
 		jsonPost("post-A-ext", m("query", qInfo, "operationName", "A", "extensions", m("k", "ext-A")), nil),
+		// the text of post-A again, naming an operation the document does not hold
+		jsonPost("post-unknown-op", m("query", qInfo, "operationName", "Z"), nil),
 		jsonPost("post-plain", m("query", `{ctxinfo}`), nil),
 		jsonPost("post-echo-var", m("query", `query($s:String){echo(s:$s) ctxinfo}`, "variables", m("s", "S1")), nil),
 		jsonPost("post-echo-novar", m("query", `query($s:String){echo(s:$s) ctxinfo}`), nil),
